@@ -67,8 +67,12 @@ HARNESSES = [
          fp=_FP_DR, malloc_fail=True, flags=_UF,
          cases=[dict(id="nblk%d" % n, defines={"NBLK": n}, unwind=n + 2,
                      tier="quick" if n <= 2 else "thorough") for n in range(0, 4)]),
-    dict(name="dr_getblock", file="dr_getblock.c", label="proved", timeout=170,
-         fp=_FP_DR, malloc_fail=True, flags=_UF, loops=["sqfs_data_reader_get_block"]),
+    # a loop contract on the walk over the preceding block words makes
+    # goto-instrument 6.11 fail ("Recursive call to 'get_block' during
+    # inlining"), so the index is bounded and the loop unwound
+    dict(name="dr_getblock", file="dr_getblock.c", label="bounded(index <= 3)", timeout=170,
+         fp=_FP_DR, malloc_fail=True, flags=_UF, defines={"GB_MAXIDX": 3},
+         unwindset=["sqfs_data_reader_get_block.0:5"]),
     dict(name="dr_create_stream", file="dr_create_stream.c", label="proved", timeout=170,
          fp=dict(_FP_DR, **{"sqfs_drop:destroy": "data_reader_destroy"}),
          malloc_fail=True, flags=_UF, unwindset=["strlen.0:6"]),
